@@ -566,7 +566,7 @@ impl Property for C01 {
     const RULE: &'static str = "seeded sessions of 1-3 decoders (all 4 option combinations) x up to 16 events; each decode consumes a valid picture, a valid picture through 1-3 transit faults, an adversarially structured picture, random bytes behind a valid header, or raw random bytes, delivered whole / split with a call in between / trickled, with source faults armed on random reads. evaluations = decode calls actually made (size-screened inputs excluded). A case is non-trivial if the call got past the start code (>= 6 source bytes consumed) or succeeded; distinct by (decoder state digest before the call, input bytes).";
     fn runs(tier: Tier) -> u64 {
         match tier {
-            Tier::Quick => 120_000,
+            Tier::Quick => 100_000,
             Tier::Thorough => 3_000_000,
         }
     }
